@@ -113,3 +113,14 @@ MUTANTS += [
     dict(id="c12-client-ignores-peer-seg", props=["C12"], file="appservice.py", old="            elif self.device_info.segmentationSupported not in ('segmentedReceive', 'segmentedBoth'):", new="            elif self.device_info.segmentationSupported not in ('segmentedReceive', 'segmentedBoth', 'segmentedTransmit'):"),
     dict(id="c12-unseg-header-3", props=["C12"], file="appservice.py", old="        if len(apdu.pduData) <= self.segmentSize - 4:", new="        if len(apdu.pduData) <= self.segmentSize - 3:"),
 ]
+
+MUTANTS += [
+    # ---- C11
+    dict(id="c11-next-id-ignores-address", props=["C11"], file="appservice.py", old="                if (invokeID == tr.invokeID) and (addr == tr.pdu_address):\n                    break\n            else:\n                break", new="                if (invokeID == tr.invokeID) and (addr != tr.pdu_address):\n                    break\n            else:\n                break"),
+    dict(id="c11-reply-lookup-id-only", props=["C11"], file="appservice.py", old="            # find the client transaction this is acking\n            for tr in self.clientTransactions:\n                if (apdu.apduInvokeID == tr.invokeID) and (apdu.pduSource == tr.pdu_address):", new="            # find the client transaction this is acking\n            for tr in self.clientTransactions:\n                if (apdu.apduInvokeID == tr.invokeID):"),
+    dict(id="c11-await-response-forwards-duplicate", props=["C11"], file="appservice.py", old="        if isinstance(apdu, ConfirmedRequestPDU):\n            if _debug: ServerSSM._debug(\"    - client is trying this request again\")\n", new="        if isinstance(apdu, ConfirmedRequestPDU):\n            if _debug: ServerSSM._debug(\"    - client is trying this request again\")\n            self.request(apdu)\n"),
+    dict(id="c11-wrap-at-255", equivalent="never using ID 255 keeps every live ID unique; the property does not require all 256 values to be used", props=["C11"], file="appservice.py", old="            self.nextInvokeID = (self.nextInvokeID + 1) % 256\n", new="            self.nextInvokeID = (self.nextInvokeID + 1) % 255\n"),
+    dict(id="c11-no-in-use-check", props=["C11"], file="appservice.py", old="                    if (apdu.apduInvokeID == tr.invokeID) and (apdu.pduDestination == tr.pdu_address):\n                        raise RuntimeError(\"invoke ID in use\")", new="                    if (apdu.apduInvokeID == tr.invokeID) and (apdu.pduDestination == tr.pdu_address) and apdu.apduInvokeID > 3:\n                        raise RuntimeError(\"invoke ID in use\")"),
+    dict(id="c11-server-dup-by-id-only", props=["C11"], file="appservice.py", old="            # find duplicates of this request\n            for tr in self.serverTransactions:\n                if (apdu.apduInvokeID == tr.invokeID) and (apdu.pduSource == tr.pdu_address):", new="            # find duplicates of this request\n            for tr in self.serverTransactions:\n                if (apdu.apduInvokeID == tr.invokeID):"),
+    dict(id="c11-abort-lookup-id-only", props=["C11"], file="appservice.py", old="            if apdu.apduSrv:\n                for tr in self.clientTransactions:\n                    if (apdu.apduInvokeID == tr.invokeID) and (apdu.pduSource == tr.pdu_address):\n                        break\n                else:\n                    return\n\n                # send the packet on to the transaction\n                tr.confirmation(apdu)\n            else:\n                for tr in self.serverTransactions:\n                    if (apdu.apduInvokeID == tr.invokeID) and (apdu.pduSource == tr.pdu_address):\n                        break\n                else:\n                    return\n\n                # send the packet on to the transaction\n                tr.indication(apdu)\n\n        elif isinstance(apdu, SegmentAckPDU):", new="            if apdu.apduSrv:\n                for tr in self.clientTransactions:\n                    if (apdu.apduInvokeID == tr.invokeID):\n                        break\n                else:\n                    return\n\n                # send the packet on to the transaction\n                tr.confirmation(apdu)\n            else:\n                for tr in self.serverTransactions:\n                    if (apdu.apduInvokeID == tr.invokeID) and (apdu.pduSource == tr.pdu_address):\n                        break\n                else:\n                    return\n\n                # send the packet on to the transaction\n                tr.indication(apdu)\n\n        elif isinstance(apdu, SegmentAckPDU):"),
+]
